@@ -423,6 +423,8 @@ class FullLib(Lib):
             return VInt(len(x.items))
         if isinstance(x, VTuple):
             return VInt(len(x.items))
+        if isinstance(x, VSymSeq) and x.what == "lines":
+            return VInt(T.card(x.info["m"]))
         if isinstance(x, VDyn):
             return VInt(z3.Length(self.need_str(it, x, "TypeError").term))
         raise Undecided(f"len({x})")
